@@ -25,32 +25,59 @@ pub fn copy_k(k: usize) -> Vec<Cmd> {
 }
 
 /// copy until end of input (DESIGN Appendix E): 흑 흑 흣..... 흣.♥ 하앙..... 흑 흣 형.?♥?
-pub fn copy_all() -> Vec<Cmd> {
-    let q = RArea::Node(0, Box::new(RArea::Nil), Box::new(RArea::Node(0, Box::new(RArea::Leaf(2)), Box::new(RArea::Nil))));
+/// parametrised by the heart and the junk stack
+pub fn copy_all(heart: u8, junk: usize) -> Vec<Cmd> {
+    let q = RArea::Node(0, Box::new(RArea::Nil), Box::new(RArea::Node(0, Box::new(RArea::Leaf(heart)), Box::new(RArea::Nil))));
     vec![
         Cmd::new(5, 1, 0, RArea::Nil),
         Cmd::new(5, 1, 0, RArea::Nil),
-        Cmd::new(3, 1, 5, RArea::Nil),
-        Cmd::new(3, 1, 1, RArea::Leaf(2)),
-        Cmd::new(1, 2, 5, RArea::Nil),
+        Cmd::new(3, 1, junk, RArea::Nil),
+        Cmd::new(3, 1, 1, RArea::Leaf(heart)),
+        Cmd::new(1, 2, junk, RArea::Nil),
         Cmd::new(5, 1, 0, RArea::Nil),
         Cmd::new(3, 1, 0, RArea::Nil),
         Cmd::new(0, 1, 1, q),
     ]
 }
 
-pub fn family(sc: &Scenario) -> Vec<Cmd> {
-    if sc.knob("family") == 1 {
-        copy_all()
+/// a second copier with a multi-syllable label command (count = lh * ld >= 1):
+/// 흑 혀엉.♥ 항..... 항. 흑 흣..... 혀엉.?♥?
+pub fn copy_all_b(heart: u8, junk: usize, lh: usize, ld: usize) -> Vec<Cmd> {
+    let q = RArea::Node(0, Box::new(RArea::Nil), Box::new(RArea::Node(0, Box::new(RArea::Leaf(heart)), Box::new(RArea::Nil))));
+    vec![
+        Cmd::new(5, 1, 0, RArea::Nil),
+        Cmd::new(0, lh, ld, RArea::Leaf(heart)),
+        Cmd::new(1, 1, junk, RArea::Nil),
+        Cmd::new(1, 1, 1, RArea::Nil),
+        Cmd::new(5, 1, 0, RArea::Nil),
+        Cmd::new(3, 1, junk, RArea::Nil),
+        Cmd::new(0, lh, ld, q),
+    ]
+}
+
+fn knob_or(sc: &Scenario, k: &str, default: i64) -> i64 {
+    let v = sc.knob(k);
+    if v == 0 {
+        default
     } else {
-        copy_k(sc.knob("k") as usize)
+        v
+    }
+}
+
+pub fn family(sc: &Scenario) -> Vec<Cmd> {
+    let heart = knob_or(sc, "heart", 2) as u8;
+    let junk = knob_or(sc, "junk", 5) as usize;
+    match sc.knob("family") {
+        1 => copy_all(heart, junk),
+        2 => copy_all_b(heart, junk, knob_or(sc, "lh", 2) as usize, knob_or(sc, "ld", 1) as usize),
+        _ => copy_k(sc.knob("k") as usize),
     }
 }
 
 /// closed form of what the program must print
 pub fn closed_form(sc: &Scenario) -> Vec<u8> {
     let text = String::from_utf8_lossy(&sc.stdin).into_owned();
-    if sc.knob("family") == 1 {
+    if sc.knob("family") >= 1 {
         if text.is_empty() {
             NAN_TEXT.as_bytes().to_vec()
         } else {
@@ -168,7 +195,7 @@ pub fn expected(sc: &Scenario) -> Result<Expected, String> {
     Ok(Expected { out: cf })
 }
 
-const COMPILED_FAMILY: [(i64, i64); 4] = [(0, 1), (0, 7), (0, 40), (1, 0)];
+const COMPILED_FAMILY: [(i64, i64); 5] = [(0, 1), (0, 7), (0, 40), (1, 0), (2, 0)];
 
 impl Property for C14 {
     fn id(&self) -> &'static str {
@@ -192,9 +219,13 @@ impl Property for C14 {
         let mut sc = Scenario::new("C14");
         sc.stdin = gen_text(rng, tier);
         let chars = String::from_utf8_lossy(&sc.stdin).chars().count();
-        if rng.chance(50) {
-            sc.set_knob("family", 1);
+        if rng.chance(55) {
+            sc.set_knob("family", rng.range(1, 2) as i64);
             sc.set_knob("k", 0);
+            sc.set_knob("heart", rng.range(2, 12) as i64);
+            sc.set_knob("junk", *rng.pick(&[4i64, 5, 5, 6, 9, 40]));
+            sc.set_knob("lh", rng.range(1, 4) as i64);
+            sc.set_knob("ld", rng.range(1, 5) as i64);
         } else {
             sc.set_knob("family", 0);
             let k = match rng.below(4) {
@@ -280,11 +311,11 @@ impl Property for C14 {
             }
         }
         out.nontrivial = (non_ascii || breaks) && split > 0;
-        out.shape = (chars.min(1 << 20)) << 8 ^ (sc.knob("family") as u64) << 4 ^ (non_ascii as u64) << 1 ^ breaks as u64;
+        out.shape = (chars.min(1 << 20)) << 8 ^ (sc.knob("family") as u64) << 5 ^ (non_ascii as u64) << 1 ^ breaks as u64;
         out
     }
     fn post(&self, tier: Tier, seed: u64, stats: &mut Stats) -> Option<(Scenario, Violation)> {
-        // RealWorld: compiled executables (3 levels x 4 family members) and the real binary
+        // RealWorld: compiled executables (3 levels x 5 family members) and the real binary
         let bin = match real::binary() {
             Ok(b) => b,
             Err(e) => {
@@ -343,6 +374,9 @@ impl Property for C14 {
                 let mut sc = base.clone();
                 sc.set_knob("family", *fam);
                 sc.set_knob("k", *k);
+                for kk in ["heart", "junk", "lh", "ld"] {
+                    sc.set_knob(kk, 0);
+                }
                 sc.cmds = family(&sc);
                 sc.level = *level;
                 sc.subcommand = "compiled".into();
@@ -392,9 +426,53 @@ impl Property for C14 {
         stats.extra.push(("compiled_executables".into(), J::Int(exes.len() as i64)));
         stats.extra.push((
             "realworld_note".into(),
-            J::str("compiled -O0/-O1/-O2 executables of copy-1, copy-7, copy-40 and copy-until-EOF (rustc against the number-only build) and the release binary, stdin through a real pipe in planned write sizes; kernel interleaving not controlled"),
+            J::str("compiled -O0/-O1/-O2 executables of copy-1, copy-7, copy-40 and the two copy-until-EOF programs (rustc against the number-only build) and the release binary, stdin through a real pipe in planned write sizes; kernel interleaving not controlled"),
         ));
         bad
+    }
+    fn replay_real(&self, sc: &Scenario) -> Option<Violation> {
+        // one RealWorld case: a compiled family member (subcommand "compiled") or the release binary
+        let mut sc = sc.clone();
+        sc.cmds = family(&sc);
+        let ex = match expected(&sc) {
+            Ok(e) => e,
+            Err(m) => {
+                println!("HARNESS-ERROR: C14 {}", m);
+                std::process::exit(2);
+            }
+        };
+        let chunks = real::chunks_from_plan(&sc.plan, 256);
+        let level = sc.level;
+        if sc.subcommand == "compiled" {
+            let parsed = parse_checked(&sc).ok()?;
+            let src = match emit(&parsed, level, 1_000_000) {
+                Emit::Source(s) => s,
+                Emit::OptimizeError(m) | Emit::Misbehaved(m) => return Some(Violation::new("compiled-emit", "source text", m)),
+            };
+            let exe = match build_exe(&src, "c14_replay") {
+                Ok(e) => e,
+                Err(m) => return Some(Violation::new("compiled-rustc", "accepted by rustc", truncate(&m, 1200))),
+            };
+            let r = real::run(&exe, &[], None, &sc.stdin, &chunks, Duration::from_secs(120)).expect("spawn");
+            let _ = std::fs::remove_file(&exe);
+            if r.timed_out || r.status != Some(0) || r.stdout != ex.out || !r.stderr.is_empty() {
+                let (e, o) = diff_msg(&ex.out, &r.stdout);
+                let mut v = Violation::new(&format!("compiled-O{}-output-bytes", level), format!("status 0; {}", e), format!("{}; {} ; stderr {:?}", r.describe(), o, lossy(&r.stderr)));
+                v.world = "real";
+                return Some(v);
+            }
+            None
+        } else {
+            let r = crate::props::c01::real_run(&sc, level, "c14real");
+            let (_h, rest) = crate::props::c01::split_header(&r.stdout, if level == 0 { 2 } else { 3 });
+            if r.timed_out || r.status != Some(0) || rest != ex.out || !r.stderr.is_empty() {
+                let (e, o) = diff_msg(&ex.out, &rest);
+                let mut v = Violation::new(&format!("binary-O{}-output-bytes", level), format!("status 0; {}", e), format!("{}; {} ; stderr {:?}", r.describe(), o, lossy(&r.stderr)));
+                v.world = "real";
+                return Some(v);
+            }
+            None
+        }
     }
     fn components(&self) -> J {
         J::obj()
@@ -404,7 +482,7 @@ impl Property for C14 {
     }
     fn assumptions(&self) -> Vec<String> {
         vec![
-            "program family: copy exactly k characters, copy until end of input; the reverse-each-line member of the planned family is not built (DESIGN Appendix E)".into(),
+            "program family: copy exactly k characters, two copy-until-end-of-input programs parametrised by heart, junk stack and the label command's syllable/dot counts; the reverse-each-line member of the planned family is not built (DESIGN Appendix E)".into(),
             "inputs up to 12k characters (quick) / 100k characters (thorough)".into(),
         ]
     }
